@@ -107,8 +107,8 @@ def jit_frame_alias(c):
 
 
 def run(chk):
-    res = vlib.prove(chk, C01.UNITS + ['JitFrame'], C01.MODELS + ['theories/X86Stk.vo', 'gen/JitFrame.vo'], 'C07',
-                     C01.PROOFS + ['theories/InterpCalls.v', 'theories/InterpArmsCall.v', 'theories/JitFrameProofs.v'])
+    res = vlib.prove(chk, C01.UNITS + ['JitFrame', 'StackRs'], C01.MODELS + ['theories/X86Stk.vo', 'gen/JitFrame.vo', 'gen/StackRs.vo'], 'C07',
+                     C01.PROOFS + ['theories/InterpCalls.v', 'theories/InterpArmsCall.v', 'theories/JitFrameProofs.v', 'theories/StackRsProofs.v'])
     found = False
     if res['model_ok']:
         binary = vlib.harness_build('debug')
